@@ -159,7 +159,7 @@ func (db *SpecDB) LoadFile(path, defaultPkg string, lib bool) error {
 		if len(first) > 0 {
 			kw = first[0]
 		}
-		if clauseKeywords[kw] || strings.HasPrefix(l.text, "assert@") || strings.HasPrefix(l.text, "cbinv@") || strings.HasPrefix(l.text, "must@") || len(joined) == 0 {
+		if clauseKeywords[kw] || strings.HasPrefix(l.text, "assert@") || strings.HasPrefix(l.text, "cbinv@") || strings.HasPrefix(l.text, "must@") || strings.HasPrefix(l.text, "after@") || len(joined) == 0 {
 			joined = append(joined, l)
 		} else {
 			joined[len(joined)-1].text += " " + l.text
@@ -490,6 +490,20 @@ func (db *SpecDB) LoadFile(path, defaultPkg string, lib bool) error {
 					continue
 				}
 				cur.Musts = append(cur.Musts, &Clause{Kind: "must", Expr: e, Text: strings.TrimSpace(text[col+2:]), Label: label, Tags: tags, Src: src, Idx: len(cur.Musts)})
+			case strings.HasPrefix(text, "after@"):
+				// after@call(F,k): expr over $result (or $result0, $result1): proved right after the call returns
+				col := strings.Index(text, "):")
+				if col < 0 {
+					fail(l.no, "after@ clause needs '):'")
+					continue
+				}
+				label := "after:" + text[len("after@"):col+1]
+				e, err := ParseExpr(text[col+2:])
+				if err != nil {
+					fail(l.no, "%v", err)
+					continue
+				}
+				cur.Asserts = append(cur.Asserts, &Clause{Kind: "assert", Expr: e, Text: strings.TrimSpace(text[col+2:]), Label: label, Tags: tags, Src: src, Idx: len(cur.Asserts)})
 			case strings.HasPrefix(text, "assert@"), strings.HasPrefix(text, "cbinv@"):
 				// cbinv@call(F,k): an invariant of the callback handed to the k-th call of F (a higher-order
 				// iteration): proved at the call, assumed after it; that every invocation of the callback preserves
